@@ -391,16 +391,27 @@ var workerDeadline = func() int64 {
 	return 0
 }()
 
+// inWorker: this process is one of core's sharded workers (the duplicate-prefix
+// table is only worth building there; a single -case run just runs the case).
+var inWorker = func() bool {
+	for _, a := range os.Args {
+		if a == "-worker" {
+			return true
+		}
+	}
+	return false
+}()
+
 func pastDeadline() bool { return workerDeadline > 0 && time.Now().Unix() > workerDeadline }
 
 type searcher struct {
-	aborted bool              // budget spent in the middle of the case
-	disabled bool             // the case prefix is outside the restricted alphabet
-	viols  map[string]string // key -> detail (first = shortest history)
-	order  []string
-	states map[string]struct{}
-	trans  uint64
-	sig    uint64
+	aborted  bool              // budget spent in the middle of the case
+	disabled bool              // the case prefix is outside the restricted alphabet
+	viols    map[string]string // key -> detail (first = shortest history)
+	order    []string
+	states   map[string]struct{}
+	trans    uint64
+	sig      uint64
 }
 
 func newSearcher() *searcher {
@@ -532,11 +543,17 @@ func overflows(pre *refctx.Stack, op refctx.Op) bool {
 // model.  It returns the model state to continue from (nil: a violation was
 // reported, do not go on from this state) and the canonical state.
 func (s *searcher) step(h []uint16, pre *refctx.Stack, opi uint16) (*refctx.Stack, string) {
-	op := decode(opi)
 	r := freshRuntime()
 	for _, x := range h {
 		applyReal(r, decode(x))
 	}
+	return s.stepOn(r, h, pre, opi)
+}
+
+// stepOn is step on a runtime that history h has already been applied to
+// (used for the case prefixes, which are one straight history).
+func (s *searcher) stepOn(r *rt.Runtime, h []uint16, pre *refctx.Stack, opi uint16) (*refctx.Stack, string) {
+	op := decode(opi)
 	o, goPanic := applyReal(r, op)
 	s.trans++
 	o.Stack = observeStack(r)
@@ -615,13 +632,14 @@ func (s *searcher) run(prefix []uint16, more int, alphabet []uint16) {
 	model := refctx.NewStack()
 	var h []uint16
 	canon := ""
+	r := freshRuntime()
 	for _, x := range prefix {
 		if !model.Enabled(decode(x)) {
 			s.disabled = true // the case's prefix is outside the restricted alphabet
 			return
 		}
 		var next *refctx.Stack
-		next, canon = s.step(h, model, x)
+		next, canon = s.stepOn(r, h, model, x)
 		if next == nil {
 			return
 		}
@@ -710,11 +728,12 @@ func prefixState(prefix []uint16) (canon string, ok bool) {
 	s := newSearcher()
 	model := refctx.NewStack()
 	var h []uint16
+	r := freshRuntime()
 	for _, x := range prefix {
 		if !model.Enabled(decode(x)) {
 			return "", false
 		}
-		next, c := s.step(h, model, x)
+		next, c := s.stepOn(r, h, model, x)
 		if next == nil || !next.Representable() {
 			return "", false
 		}
@@ -769,11 +788,15 @@ func stackFamily(name string, first, rest []uint16, plen, more int, budget int, 
 	}
 	return &core.Family{
 		Name: name, Size: size, BudgetSeconds: budget,
+		// a case is a search of up to ~180k transitions; on a heavily loaded box
+		// that can exceed the default watchdog.  The operations themselves are
+		// straight-line code.
+		HangSeconds: 1800,
 		Run: func(i uint64) core.Outcome {
 			if pastDeadline() {
 				return core.Outcome{Skipped: true}
 			}
-			if dedupe {
+			if dedupe && inWorker {
 				once.Do(prepare)
 				if rep[i] != i {
 					return core.Outcome{Skipped: true}
@@ -786,15 +809,8 @@ func stackFamily(name string, first, rest []uint16, plen, more int, budget int, 
 		},
 		Show: func(i uint64) string {
 			st, ops := get(i)
-			d := ""
-			if dedupe {
-				once.Do(prepare)
-				if rep[i] != i {
-					d = fmt.Sprintf(" (skipped: same state after the prefix as case %d)", rep[i])
-				}
-			}
-			return fmt.Sprintf("start=%s [%s]; then %s; then every history of <= %d more operations of the reduced alphabet%s",
-				startNames[st], histStr(startHist(st)), histStr(ops), more, d)
+			return fmt.Sprintf("start=%s [%s]; then %s; then every history of <= %d more operations of the reduced alphabet",
+				startNames[st], histStr(startHist(st)), histStr(ops), more)
 		},
 	}
 }
@@ -807,16 +823,16 @@ func partAFamilies(tier string) []*core.Family {
 	}
 	if tier == "thorough" {
 		return []*core.Family{
-			stackFamily("A-full1-depth3", full, red, 1, 2, 240, false, true),
-			stackFamily("A-red1-full2-depth2", red, full, 1, 1, 120, false, true),
-			stackFamily("A-reduced-depth4", red, red, 2, 2, 240, false, true),
-			stackFamily("A-reduced-depth5", red, red, 2, 3, 330, true, true),
-			stackFamily("A-reduced-depth6", red, red, 3, 3, 200, true, false),
+			stackFamily("A-full1-depth3", full, red, 1, 2, 200, false, true),
+			stackFamily("A-red1-full2-depth2", red, full, 1, 1, 60, false, false),
+			stackFamily("A-reduced-depth4", red, red, 2, 2, 180, false, true),
+			stackFamily("A-reduced-depth5", red, red, 2, 3, 300, true, true),
+			stackFamily("A-reduced-depth6", red, red, 3, 3, 180, true, false),
 		}
 	}
 	return []*core.Family{
-		stackFamily("A-full1-depth2", full, red, 1, 1, 60, false, true),
-		stackFamily("A-reduced-depth4", red, red, 2, 2, 100, false, true),
+		stackFamily("A-full1-depth2", full, red, 1, 1, 90, false, false),
+		stackFamily("A-reduced-depth4", red, red, 2, 2, 115, false, true),
 	}
 }
 
